@@ -667,3 +667,4 @@ Proof.
   - apply py_hex_roundtrip.
   - unfold negated_literal_text. rewrite (proj2 (py_hex_roundtrip pow10_limit)). vm_compute. reflexivity.
 Qed.
+
